@@ -31,6 +31,15 @@ theorem C01_post : ∀ w ∈ workflows, w.isCircuit = true → semOK w.final = t
 
 example : (workflows.filter (·.isCircuit)).length ≥ 250 := by decide +kernel
 
+/-- No modelled pass of any regenerated circuit workflow can raise where it is reachable (restore
+without extract, a single-qudit rule on a wider block, a layer / template generator or a
+deterministic rule that fails on a dummy block of the configuration's model). -/
+theorem C01_no_modelled_pass_raises :
+    ∀ w ∈ workflows, w.isCircuit = true → w.final.crash = false := by
+  intro w hw _
+  have := allCheck_noRaise (workflows_ok w hw)
+  simpa [noRaise] using this
+
 /-- The hypothesis `numOK` is really used: at level 3 (resynthesis) the meaning is kept only if
 the search-based synthesis leaves reach their threshold — they return their best circuit even
 when they do not, and `ForEachBlockPass` accepts it. -/
